@@ -7,7 +7,7 @@ PROP = {'rule': 'rapid state machine, one unit per combination of EnableRuntimeQ
          '(shipped "unbounded" value or small), EnableMinQuotaScale, 0-3 nodes; then ~50 steps of: pod add (quota by label, by namespace, by '
          'namespace annotation, dangling label -> default quota, default/system quota; preemptible or not; 1-2 containers, declared and '
          'undeclared dimensions), schedule (PreFilter, on Success Reserve, optionally an informer event between the two), finish binding (bind = '
-         'pod update with nodeName, or Unreserve), pod delete (optionally followed by the late Unreserve), pods labelled with a quota that does not exist yet (parked in the default quota, admitted / reserved / bound there), late quota create for such names (leaf below the root or below an existing parent, webhook-valid), migrate (the plugin\'s real periodic cycle migrateDefaultQuotaGroupsPod; afterwards the pod counts against its own quota in the model), quota update (raise max / set min inside '
+         'pod update with nodeName, or Unreserve), pod delete (optionally followed by the late Unreserve), pods labelled with a quota that does not exist yet (parked in the default quota, admitted / reserved / bound there), late quota create for such names (leaf below the root or below an existing parent, webhook-valid), migrate (the plugin\'s real periodic cycle migrateDefaultQuotaGroupsPod; afterwards the pod counts against its own quota in the model; parked pods are also scheduled, rolled back, bound and deleted inside the window between quota creation and migration), quota update (raise max / set min inside '
          'the webhook window / lower max), capacity change (node add / delete / resize / squeeze). non-trivial = some attempt was rejected on a '
          'quota, afterwards an assigned pod on that quota\'s path was released (delete or unreserve), and afterwards an attempt on the same quota '
          'was admitted. distinct = FNV-64 of setup + full history.',
@@ -17,10 +17,12 @@ PROP = {'rule': 'rapid state machine, one unit per combination of EnableRuntimeQ
                  'scheduler) are not generated: they bypass admission by design',
                  'pods have regular containers only (no init containers / overhead / pod-level resources), so the request is the plain sum over '
                  'containers; all quantities are integral in milli-cpu / whole units',
-                 'a parked pod whose quota has been created but which the migration cycle (1 s period) has not moved yet is neither scheduled nor '
-                 'rolled back (Unreserve) inside that window: the plugin resolves it to the new quota while the manager still holds it in the default '
-                 'quota and ReservePod/UnreservePod are no-ops for it (suspected defect, observable with VERIF_C03_WINDOW=1); pod update and delete '
-                 'events inside the window are generated and follow the routing of commit 2cce5a0 (a bind update moves the pod, bound, to the new quota)',
+                 'between the creation of its quota and the next migration cycle (1 s period) a parked pod is resolved by the plugin to the new quota '
+                 'while the manager still holds it in the default quota; the whole window is generated: a parked pod scheduled inside it is admitted '
+                 'against its own quota and, from Reserve on, charged to it; a pod reserved in the default quota earlier and rolled back inside the '
+                 'window is released from the default quota and stays parked; a bind update inside the window moves the pod, bound, to the new quota '
+                 '(routing of koordinator commits 2cce5a0 and 8efd15b); a violation on a quota path that saw such a Reserve/Unreserve carries the '
+                 'signature migration-window:reserve-or-unreserve-of-parked-pod-not-applied-to-holding-quota',
                  'a quota (and its ancestors) that received an assigned pod by migration is outside the used <= max claim from then on: running pods '
                  'arrive without admission',
                  'quotas are not deleted or re-parented and pods do not change their label (C01 covers those); scheduling cycles are sequential '
